@@ -1,7 +1,478 @@
-//! C02 — not built yet
-use crate::vcore::Tier;
+//! C02 — interrupt, NMI, HALT and prefix sequencing follow the Z80 rules.
+//! E-BFS with a lazily chosen program (an instruction token is chosen when PC reaches unassigned
+//! memory) and scripted INT/NMI levels at every instruction boundary, in lock step with RefZ80.
 
-pub fn run(_tier: Tier, _seed: u64, _replay: Option<String>) -> i32 {
-    eprintln!("MACHINERY: check C02 is not built yet");
-    2
+use crate::rig;
+use crate::vcore::{fnv, fnv_mix, par_for, Ctx, Tier};
+use crate::z80lock::*;
+use refz80::RefZ80;
+use rustzx_z80::Z80;
+use serde_json::json;
+use std::collections::HashSet;
+use std::sync::Mutex;
+
+const TOKENS: &[(&str, &[u8])] = &[
+    ("NOP", &[0x00]),
+    ("EI", &[0xFB]),
+    ("DI", &[0xF3]),
+    ("HALT", &[0x76]),
+    ("RET", &[0xC9]),
+    ("RETI", &[0xED, 0x4D]),
+    ("RETN", &[0xED, 0x45]),
+    ("IM0", &[0xED, 0x46]),
+    ("IM1", &[0xED, 0x56]),
+    ("IM2", &[0xED, 0x5E]),
+    ("LD A,I", &[0xED, 0x57]),
+    ("DD NOP", &[0xDD, 0x00]),
+    ("DD DD NOP", &[0xDD, 0xDD, 0x00]),
+    ("DD FD LD IY,nn", &[0xDD, 0xFD, 0x21, 0x34, 0x12]),
+    ("FD DD ED NEG", &[0xFD, 0xDD, 0xED, 0x44]),
+    ("DD EI", &[0xDD, 0xFB]),
+    ("FD DI", &[0xFD, 0xF3]),
+    ("DD HALT", &[0xDD, 0x76]),
+    ("RLC (IX+1)", &[0xDD, 0xCB, 0x01, 0x06]),
+    ("LD IX,nn", &[0xDD, 0x21, 0x34, 0x12]),
+    ("RETN alias ED 55", &[0xED, 0x55]),
+    ("LD A,R", &[0xED, 0x5F]),
+];
+
+/// Program memory: assigned cells + writes; everything else is the background function.
+#[derive(Clone)]
+struct Mem {
+    cells: Vec<(u16, u8)>,
+}
+
+impl Mem {
+    fn get(&self, a: u16) -> Option<u8> {
+        self.cells.iter().rev().find(|(x, _)| *x == a).map(|(_, v)| *v)
+    }
+}
+
+#[derive(Clone)]
+struct Node {
+    cpu: Z80,
+    rc: RefZ80,
+    mem: Mem,
+    ack: u8,
+    hist: Vec<String>,
+}
+
+fn env_of(n: &Node, int: bool, nmi: bool) -> Env {
+    let mut e = Env::new(0x31);
+    e.int_line = int;
+    e.nmi_line = nmi;
+    e.ack_byte = n.ack;
+    e
+}
+
+/// Bus wrappers that serve `Mem` first
+struct IBus {
+    inner: ImplBus,
+    mem: Mem,
+    /// emulate() call number inside the macro-step (1 = the boundary itself)
+    phase: u32,
+    /// levels answered to any sample after the boundary (inside a prefix chain)
+    late_int: bool,
+    late_nmi: bool,
+}
+impl rustzx_z80::Z80Bus for IBus {
+    fn read_internal(&mut self, addr: u16) -> u8 {
+        if let Some(v) = self.mem.get(addr) {
+            self.inner.env.preset[0] = (addr, v);
+            self.inner.env.npreset = 1;
+        } else {
+            self.inner.env.npreset = 0;
+        }
+        // writes of this step shadow presets inside env.read
+        self.inner.read_internal(addr)
+    }
+    fn write_internal(&mut self, addr: u16, data: u8) {
+        self.inner.write_internal(addr, data);
+        self.mem.cells.push((addr, data));
+    }
+    fn wait_mreq(&mut self, addr: u16, clk: usize) {
+        self.inner.wait_mreq(addr, clk)
+    }
+    fn wait_no_mreq(&mut self, addr: u16, clk: usize) {
+        self.inner.wait_no_mreq(addr, clk)
+    }
+    fn wait_internal(&mut self, clk: usize) {
+        self.inner.wait_internal(clk)
+    }
+    fn read_io(&mut self, port: u16) -> u8 {
+        self.inner.read_io(port)
+    }
+    fn write_io(&mut self, port: u16, data: u8) {
+        self.inner.write_io(port, data)
+    }
+    fn read_interrupt(&mut self) -> u8 {
+        self.inner.read_interrupt()
+    }
+    fn reti(&mut self) {}
+    fn halt(&mut self, _h: bool) {}
+    fn int_active(&self) -> bool {
+        if self.phase <= 1 {
+            self.inner.int_active()
+        } else {
+            self.late_int
+        }
+    }
+    fn nmi_active(&self) -> bool {
+        if self.phase <= 1 {
+            self.inner.nmi_active()
+        } else {
+            self.late_nmi
+        }
+    }
+    fn pc_callback(&mut self, _a: u16) {}
+}
+
+struct RB {
+    inner: RBus,
+    mem: Mem,
+}
+impl refz80::RefBus for RB {
+    fn m1(&mut self, addr: u16) -> u8 {
+        self.prep(addr);
+        self.inner.m1(addr)
+    }
+    fn mem_read(&mut self, addr: u16) -> u8 {
+        self.prep(addr);
+        self.inner.mem_read(addr)
+    }
+    fn mem_write(&mut self, addr: u16, val: u8) {
+        self.inner.mem_write(addr, val);
+        self.mem.cells.push((addr, val));
+    }
+    fn delay(&mut self, addr: u16, n: u8) {
+        self.inner.delay(addr, n)
+    }
+    fn io_read(&mut self, port: u16) -> u8 {
+        self.inner.io_read(port)
+    }
+    fn io_write(&mut self, port: u16, val: u8) {
+        self.inner.io_write(port, val)
+    }
+    fn int_ack(&mut self) -> u8 {
+        self.inner.int_ack()
+    }
+    fn idle(&mut self, n: u8) {
+        self.inner.idle(n)
+    }
+    fn int_line(&mut self) -> bool {
+        self.inner.int_line()
+    }
+    fn nmi_line(&mut self) -> bool {
+        self.inner.nmi_line()
+    }
+}
+impl RB {
+    fn prep(&mut self, addr: u16) {
+        if let Some(v) = self.mem.get(addr) {
+            self.inner.env.preset[0] = (addr, v);
+            self.inner.env.npreset = 1;
+        } else {
+            self.inner.env.npreset = 0;
+        }
+    }
+}
+
+fn entry_split(l: &[Ev]) -> (Vec<Ev>, Vec<Ev>) {
+    let p = l.iter().position(|e| matches!(e, Ev::M1(..))).unwrap_or(l.len());
+    (l[..p].to_vec(), l[p..].to_vec())
+}
+
+fn tsum(l: &[Ev]) -> u32 {
+    let mut g = Log::new();
+    for e in l {
+        g.push(*e);
+    }
+    g.t_states()
+}
+
+fn sorted_data(l: &[Ev]) -> Vec<Ev> {
+    let mut v: Vec<Ev> = l.iter().filter(|e| matches!(e, Ev::Rd(..) | Ev::Wr(..) | Ev::Ack(..))).cloned().collect();
+    v.sort_by_key(|e| match e {
+        Ev::Rd(a, v) => (0, *a, *v),
+        Ev::Wr(a, v) => (1, *a, *v),
+        Ev::Ack(v) => (2, 0, *v),
+        _ => (3, 0, 0),
+    });
+    v
+}
+
+/// One boundary: optional token placement, line levels, one aligned macro-step on both sides.
+fn transition(ctx: &Ctx, n: &Node, token: Option<usize>, lines: u8, verbose: bool) -> Option<Node> {
+    let (int, nmi, late_int, late_nmi) = decode_lines(lines);
+    let mut x = n.clone();
+    let pc = x.rc.pc;
+    let mut label = String::new();
+    if let Some(t) = token {
+        for (i, b) in TOKENS[t].1.iter().enumerate() {
+            let a = pc.wrapping_add(i as u16);
+            if x.mem.get(a).is_none() {
+                x.mem.cells.push((a, *b));
+            }
+        }
+        label.push_str(TOKENS[t].0);
+    } else {
+        label.push_str("(assigned)");
+    }
+    label.push_str(&format!(" INT={} NMI={}", int as u8, nmi as u8));
+    if late_int && !int {
+        label.push_str(" INT-rises-inside-chain");
+    }
+    if late_nmi && !nmi {
+        label.push_str(" NMI-rises-inside-chain");
+    }
+    x.hist.push(label);
+    let env = env_of(&x, int, nmi);
+    let mut ib = IBus { inner: ImplBus::new(env.clone()), mem: x.mem.clone(), phase: 0, late_int, late_nmi };
+    let mut rb = RB { inner: RBus::new(env), mem: x.mem.clone() };
+    let pre = x.rc.clone();
+    // implementation macro-step
+    let mut steps = 0;
+    for k in 1..=6 {
+        ib.phase = k;
+        x.cpu.emulate(&mut ib);
+        steps = k;
+        if x.cpu.verif_active_prefix() == 0 {
+            break;
+        }
+    }
+    let _ = steps;
+    // reference macro-step
+    rb.inner.armed = true;
+    let mut int_kind = 0u8;
+    for _ in 0..8 {
+        match x.rc.step(&mut rb) {
+            refz80::StepKind::IntAccepted => int_kind = 1,
+            refz80::StepKind::NmiAccepted => int_kind = 2,
+            refz80::StepKind::Prefix => {}
+            refz80::StepKind::Instruction => break,
+        }
+        rb.inner.armed = false;
+    }
+    let mut ist = from_impl(&x.cpu);
+    let mut rst = x.rc.clone();
+    normalize_q(pc, &mut ist, &mut rst);
+    // not judged: the exact value of the hidden Q/MEMPTR latches is C01's subject
+    ist.q = 0;
+    rst.q = 0;
+    let il = ib.inner.log.slice().to_vec();
+    let rl = rb.inner.log.slice().to_vec();
+    if verbose {
+        println!("  boundary {:?}", x.hist.last());
+        println!("    reference: {:x?}", x.rc);
+        println!("    impl     : {:x?}", from_impl(&x.cpu));
+        println!("    ref bus  : {}", fmt_log(&rl));
+        println!("    impl bus : {}", fmt_log(&il));
+    }
+    let hist_json = json!({"kind":"history","ack":n.ack,"start":[pre_state_json(&n.rc)],"events":x.hist});
+    let ctxs = format!(
+        "iff1={} iff2={} im={} halted={} inhibit={} prefix-pending={}",
+        pre.iff1 as u8, pre.iff2 as u8, pre.im, pre.halted as u8, pre.int_inhibit as u8, (pre.pending_prefix != 0) as u8
+    );
+    let what_tok = token.map(|t| TOKENS[t].0).unwrap_or("(assigned)");
+    // (1) was an interrupt accepted on both sides alike?
+    let (ie, irest) = entry_split(&il);
+    let (re, rrest) = entry_split(&rl);
+    let impl_int = !ie.is_empty();
+    if impl_int != (int_kind != 0) {
+        ctx.violation(
+            &format!("C02:acceptance:{}:{}:INT{}NMI{}", what_tok_class(&pre, n), if impl_int { "accepted-but-must-not" } else { "not-accepted-but-must" }, int as u8, nmi as u8),
+            &format!("boundary [{}] in state ({}): implementation {} an interrupt, the Z80 rules say {}; history {:?}", what_tok, ctxs, if impl_int { "accepted" } else { "did not accept" }, if int_kind != 0 { "accept" } else { "do not accept" }, x.hist),
+            hist_json,
+        );
+        return None;
+    }
+    if impl_int && (tsum(&ie) != tsum(&re) || sorted_data(&ie) != sorted_data(&re)) {
+        ctx.violation(
+            &format!("C02:entry:{}", if int_kind == 2 { "nmi".to_string() } else { format!("im{}", pre.im) }),
+            &format!("interrupt entry differs in state ({}): impl [{}] rules [{}]; history {:?}", ctxs, fmt_log(&ie), fmt_log(&re), x.hist),
+            hist_json,
+        );
+        return None;
+    }
+    if irest != rrest {
+        ctx.violation(
+            &format!("C02:step:{}:bus", what_tok),
+            &format!("after boundary [{}] ({}): impl bus [{}] rules [{}]; history {:?}", what_tok, ctxs, fmt_log(&irest), fmt_log(&rrest), x.hist),
+            hist_json,
+        );
+        return None;
+    }
+    if let Some(d) = diff_states(&ist, &rst, false) {
+        ctx.violation(
+            &format!("C02:state:{}:{}", what_tok, diff_fields(&ist, &rst, false).join("+")),
+            &format!("after boundary [{}] ({}): {}; history {:?}", what_tok, ctxs, d, x.hist),
+            hist_json,
+        );
+        return None;
+    }
+    x.mem = rb.mem;
+    Some(x)
+}
+
+/// 0..3: INT/NMI levels constant over the macro-step; 4: INT rises after the boundary; 5: NMI rises
+fn decode_lines(l: u8) -> (bool, bool, bool, bool) {
+    match l {
+        0..=3 => (l & 1 != 0, l & 2 != 0, l & 1 != 0, l & 2 != 0),
+        4 => (false, false, true, false),
+        _ => (false, false, false, true),
+    }
+}
+
+fn what_tok_class(pre: &RefZ80, n: &Node) -> String {
+    // class of the boundary: what preceded it
+    let last = n.hist.last().map(|s| s.split(" INT").next().unwrap_or("").to_string()).unwrap_or_else(|| "start".into());
+    format!("after[{}]:iff1={}:halted={}", last, pre.iff1 as u8, pre.halted as u8)
+}
+
+fn pre_state_json(s: &RefZ80) -> serde_json::Value {
+    json!({"iff1":s.iff1,"iff2":s.iff2,"im":s.im,"i":s.i,"sp":s.sp,"pc":s.pc})
+}
+
+fn root(iff1: bool, iff2: bool, im: u8, i: u8, ack: u8) -> Node {
+    let mut s = crate::z80prod::background(0, 0x8000);
+    s.iff1 = iff1;
+    s.iff2 = iff2;
+    s.im = im;
+    s.i = i;
+    s.sp = 0xC000;
+    s.q = 0;
+    Node {
+        cpu: to_impl(&s),
+        rc: s,
+        mem: Mem { cells: Vec::new() },
+        ack,
+        hist: Vec::new(),
+    }
+}
+
+fn key(n: &Node) -> u64 {
+    let st = from_impl(&n.cpu);
+    let mut h = fnv(format!("{:?}{:?}", st, n.rc).as_bytes());
+    let mut cells = n.mem.cells.clone();
+    // last write wins: canonical form = final value per address
+    cells.reverse();
+    let mut seen: Vec<u16> = Vec::new();
+    let mut fin: Vec<(u16, u8)> = Vec::new();
+    for (a, v) in cells {
+        if !seen.contains(&a) {
+            seen.push(a);
+            fin.push((a, v));
+        }
+    }
+    fin.sort();
+    for (a, v) in fin {
+        h = fnv_mix(h, (a as u64) << 8 | v as u64);
+    }
+    fnv_mix(h, n.ack as u64)
+}
+
+fn explore(ctx: &Ctx, r: Node, depth: usize, outcomes: &Mutex<HashSet<u64>>) -> (u64, u64) {
+    let mut frontier = vec![r];
+    let mut seen: HashSet<u64> = HashSet::new();
+    let mut states = 1u64;
+    let mut transitions = 0u64;
+    for _d in 0..depth {
+        let mut next = Vec::new();
+        for n in frontier.iter() {
+            let pc = n.rc.pc;
+            let toks: Vec<Option<usize>> = if n.mem.get(pc).is_some() { vec![None] } else { (0..TOKENS.len()).map(Some).collect() };
+            for t in toks {
+                // levels rising inside the step only matter for tokens that are prefix chains
+                let nlines = match t {
+                    Some(i) if TOKENS[i].1.len() > 1 && matches!(TOKENS[i].1[0], 0xDD | 0xFD) => 6u8,
+                    _ => 4u8,
+                };
+                for lines in 0..nlines {
+                    transitions += 1;
+                    if let Some(x) = transition(ctx, n, t, lines, false) {
+                        if _d + 1 == depth {
+                            continue;
+                        }
+                        let k = key(&x);
+                        if seen.insert(k) {
+                            states += 1;
+                            next.push(x);
+                        }
+                    }
+                }
+            }
+        }
+        frontier = next;
+    }
+    let mut g = outcomes.lock().unwrap();
+    for k in seen.iter().take(2000) {
+        g.insert(*k);
+    }
+    (states, transitions)
+}
+
+pub fn run(tier: Tier, seed: u64, replay: Option<String>) -> i32 {
+    let ctx = Ctx::new("C02", tier, seed, "model_checking");
+    if let Some(path) = replay {
+        return replay_case(&ctx, &path);
+    }
+    if let Err(e) = crate::oracle::require_valid() {
+        eprintln!("MACHINERY: reference model not validated: {}", e);
+        return 2;
+    }
+    let depth = if tier.is_thorough() { 4 } else { 3 };
+    let mut roots = Vec::new();
+    for iff in 0..4u8 {
+        for im in 0..3u8 {
+            for i in [0x3Fu8, 0xFF] {
+                for ack in [0xFFu8, 0xFE, 0x00] {
+                    if !tier.is_thorough() && (i == 0xFF && ack != 0xFF) {
+                        continue;
+                    }
+                    roots.push((iff & 1 != 0, iff & 2 != 0, im, i, ack));
+                }
+            }
+        }
+    }
+    let outcomes: Mutex<HashSet<u64>> = Mutex::new(HashSet::new());
+    par_for(roots.len(), 1, |k| {
+        let (a, b, im, i, ack) = roots[k];
+        let (s, t) = explore(&ctx, root(a, b, im, i, ack), depth, &outcomes);
+        ctx.add_states(s);
+        ctx.add_transitions(t);
+        ctx.add_traces(t);
+    });
+    ctx.outcomes_bulk(&outcomes.lock().unwrap());
+    ctx.note("roots", json!(roots.len()));
+    ctx.note("depth_instruction_boundaries", json!(depth));
+    ctx.note("program_tokens", json!(TOKENS.iter().map(|t| t.0).collect::<Vec<_>>()));
+    ctx.note("not_judged", json!("NMI on the boundary directly after EI/DI (model and code both hold it off); order of acknowledge/stack cycles inside interrupt entry; values of the hidden Q latch (C01)"));
+    ctx.sample(json!({"history": ["EI INT=1 NMI=0", "NOP INT=1 NMI=0", "(handler) NOP"], "expected": "no acceptance at the boundary after EI, acceptance at the next one"}));
+    ctx.finish(
+        "BFS over instruction boundaries: at each boundary the environment chooses the instruction token at PC when that memory is still unassigned (22 tokens incl. EI/DI/HALT/RETI/RETN/IM x/prefix chains) and the INT and NMI levels (4 combinations); roots: 4 IFF combinations x 3 interrupt modes x I in {3F,FF} x acknowledge byte; one aligned macro-step on Z80::emulate and on RefZ80 per transition; compared: acceptance or not, entry T-states and accesses, pushed address, PC, IFF1/IFF2, IM, halted, R and all other registers. Dedup on (complete implementation state, reference state, memory).",
+        true,
+        &["RefZ80 validated (see C01)", "NMI is modelled as a request sampled per boundary"],
+    )
+}
+
+fn replay_case(ctx: &Ctx, path: &str) -> i32 {
+    let v: serde_json::Value = serde_json::from_slice(&rig::read_file(path)).expect("replay json");
+    let case = &v["case"];
+    let st = &case["start"][0];
+    let mut n = root(st["iff1"].as_bool().unwrap_or(false), st["iff2"].as_bool().unwrap_or(false), st["im"].as_u64().unwrap_or(0) as u8, st["i"].as_u64().unwrap_or(0x3f) as u8, case["ack"].as_u64().unwrap_or(255) as u8);
+    for e in case["events"].as_array().cloned().unwrap_or_default() {
+        let s = e.as_str().unwrap_or("");
+        let name = s.split(" INT=").next().unwrap_or("");
+        let int = s.contains("INT=1");
+        let nmi = s.contains("NMI=1");
+        let lines = if s.contains("INT-rises") { 4 } else if s.contains("NMI-rises") { 5 } else { int as u8 | (nmi as u8) << 1 };
+        let tok = TOKENS.iter().position(|t| t.0 == name);
+        match transition(ctx, &n, tok, lines, true) {
+            Some(x) => n = x,
+            None => break,
+        }
+    }
+    let k = ctx.violation_classes();
+    println!("replay: {} violation class(es) reproduced", k);
+    (k > 0) as i32
 }
